@@ -4,9 +4,11 @@
 Runs the harnesses of checks/c07.py under *every* iteration order of every HashMap / HashSet walked (one symbolic order index per
 iteration): lexicographical_topological_sort (every DAG up to the bound, symbolic power levels and timestamps: the emitted order
 is a function of the graph and the keys), separate (the unconflicted / conflicted split of 1-3 state sets, compared as maps) and
-get_auth_chain_diff (1-3 chains, compared as a set) - hence the same result for every hasher seed, thread and call.  The native
-replays call the real functions 16 times per instance (fresh RandomState seeds per map).  resolve() as a whole, argument permutations of state sets / auth chains and the
-creator cache are outside the claim (see DESIGN.md)."""
+get_auth_chain_diff (1-3 chains, compared as a set) - hence the same result for every hasher seed, thread and call - and
+get_power_level_for_sender, which reverse_topological_power_sort calls per graph node in HashMap order with a shared creator cache:
+the level of an event is the same whether the cache is empty or was filled by an event visited before (symbolic world of C08).  The native
+replays call the real functions 16 times per instance (fresh RandomState seeds per map).  resolve() as a whole and argument permutations of state sets / auth chains are
+outside the claim (see DESIGN.md)."""
 import os, sys
 sys.path.insert(0, os.path.dirname(os.path.abspath(__file__)))
 os.environ['VERIF_PID'] = 'C06'
